@@ -45,7 +45,7 @@ try:
         p = f"C{i:02d}"
         r = sh(f"cd {VERIF} && ./check {p} --no-evidence")
         if r.returncode != 0:
-            rules = sorted(set(re.findall(r"rule (C\d+\.\d+) \[(.+?)\] ([\w.-]+): ", r.stdout)))
+            rules = sorted(set(re.findall(r"rule (C\d+\.(?:\d+|L)) \[(.+?)\] ([\w.-]+): ", r.stdout)))
             fired[p] = {"exit": r.returncode, "violations": r.stdout.count("\nVIOLATION"), "rules": [f"{a} [{b}] {c}" for a, b, c in rules][:12],
                         "analysis_error": [l for l in r.stdout.splitlines() if l.startswith("ANALYSIS-ERROR")][:2]}
 finally:
